@@ -95,6 +95,12 @@ func (m *LinearlyInterpolatedMapping) approximateLog(x float64) float64 {
 func (m *LinearlyInterpolatedMapping) approximateInverseLog(x float64) float64 {
 	exponent := math.Floor(x)
 	significandPlusOne := x - exponent + 1
+	if significandPlusOne >= 2 {
+		// When x is right below an integer, x - exponent + 1 is rounded to 2,
+		// which buildFloat64 does not support.
+		significandPlusOne /= 2
+		exponent++
+	}
 	return buildFloat64(int(exponent), significandPlusOne)
 }
 
